@@ -506,8 +506,9 @@ fn check_faulted(
         let is_rootish = gf.roots.iter().any(|r| {
           r == &url || crate::refwalk::follow_redirects(gf, r) == &url
         }) || lf.faults.values().any(|f| {
-          // injected redirects are not all recorded (the first redirect of a
-          // specifier wins), so the chain from a root cannot be reconstructed
+          // injected redirects are not all recorded (one redirect per
+          // specifier, the latest answer), so the chain from a root cannot
+          // always be reconstructed
           matches!(f, Fault::FinalSpec(_) | Fault::RedirectTo(_))
         });
         match e.maybe_referrer() {
